@@ -99,6 +99,26 @@ MIN_SUBSET = 8
 _patched = {}
 
 
+class Interrupted(Exception):
+    pass
+
+
+def failing_preprocess(after):
+    """A preprocess that lets `after` full batches of 7 traces through and raises on the next one (the 1-trace call of
+    Container.trace_size is not counted)."""
+    import scared
+    seen = {'n': 0}
+
+    @scared.preprocess
+    def interrupting(traces):
+        if traces.shape[0] == 7:
+            if seen['n'] == after:
+                raise Interrupted('C17: run interrupted')
+            seen['n'] += 1
+        return traces
+    return interrupting
+
+
 def patch_lut_cache():
     from scared.distinguishers import partitioned as P
     if _patched.get('done') is P:
@@ -547,6 +567,48 @@ def metadata_of(case, A):
     return md, sfkw, ekkw
 
 
+def truth_key(case):
+    """Round key the campaign leaks under (key schedules of the real code, properties C10): one value per word of the cipher."""
+    from scared import aes, des
+    key = np.array(case['key'], dtype='uint8')
+    sched = aes.key_schedule(key) if case['cipher'] == 'aes' else des.key_schedule(key)
+    return [int(v) for v in (sched[0] if case['sf'] in TARGET_IS_PLAINTEXT else sched[-1])]
+
+
+def default_guesses(case):
+    return 256 if case['cipher'] == 'aes' else 64
+
+
+def asked_guesses(case):
+    """(values, constructor argument) of the guesses the campaign asks for: None = the default; ranges with a non-zero start, stepped
+    and descending ranges, ndarray subsets and permutations -- always containing the true key value of every attacked word."""
+    G0 = default_guesses(case)
+    spec = case.get('guesses')
+    if not spec:
+        return list(range(G0)), None
+    rng = random.Random(spec['seed'])
+    tk = truth_key(case)
+    need = sorted({tk[w] for w in case['words']})
+    lo, hi = need[0], need[-1]
+    kind = spec['kind']
+    if kind == 'range_step' and len(need) == 1:
+        step = rng.choice([2, 3, 5])
+        start = lo - step * rng.randint(0, lo // step)
+        stop = min(G0, hi + 1 + step * rng.randint(0, (G0 - 1 - hi) // step))
+        r = range(start, stop, step)
+    elif kind == 'range_desc':
+        r = range(rng.randint(hi, G0 - 1), rng.randint(-1, lo - 1), -1)
+    elif kind in ('range', 'range_step'):
+        r = range(rng.randint(1, lo) if lo >= 1 else 0, rng.randint(hi + 1, G0))
+    else:
+        pool = [g for g in range(G0) if g not in need]
+        rng.shuffle(pool)
+        vals = need + (pool if kind == 'perm' else pool[:max(6, G0 // 4) - len(need)])
+        rng.shuffle(vals)
+        return vals, np.array(vals, dtype='uint8')
+    return list(r), r
+
+
 def words_obj(case):
     f = case.get('words_form', 'list')
     if f == 'int':
@@ -559,7 +621,7 @@ def words_obj(case):
 
 
 def make_case(rng, tier, cipher=None, sf=None, keysize=None, model=None, amp=None, batch=None, N=None, fips=False, wform=None,
-              extra=None, mtags=None, frame=None, neg=None, offset=None, precision=None, NB=None):
+              extra=None, mtags=None, frame=None, neg=None, offset=None, precision=None, NB=None, guesses=None, interrupt=None):
     cipher = cipher or rng.choice(['aes', 'aes', 'des'])
     sf = sf or rng.choice(AES_SF if cipher == 'aes' else DES_SF)
     keysize = (keysize or rng.choice([16, 24, 32])) if cipher == 'aes' else 8
@@ -617,6 +679,13 @@ def make_case(rng, tier, cipher=None, sf=None, keysize=None, model=None, amp=Non
     if NB is not None:
         case['NB'] = NB
     case['edges2'] = mia_edges2(case)
+    gk = guesses if guesses is not None else rng.choice(['default'] * 6 + ['range', 'range_desc', 'range_step', 'subset', 'perm'])
+    case['guesses'] = None if gk == 'default' else {'kind': gk, 'seed': rng.getrandbits(32)}
+    if interrupt if interrupt is not None else rng.random() < 0.12:
+        # run(A), run(B) interrupted after `after` batches, run(B) again, on every attack object: the code keeps the batches processed
+        # before the failure, so the rows fed are A + B[:after * 7] + B
+        case['batch'], case['NB'] = 7, 0
+        case['interrupt'] = {'cut': rng.randint(20, case['N'] - 28), 'after': rng.choice([1, 2, 3])}
     case['attacks'] = attacks_for(rng, case, tier)
     choose_metadata(rng, case, extra, mtags)
     return case
@@ -642,11 +711,13 @@ def boundary(rng, tier):
     c = make_case(rng, tier, cipher='aes', sf='LastSubBytes', keysize=16, model=['monobit', 0], amp=1, N=100, batch=7)
     yield c
     # DPA with Monobit on both ciphers, Value leakage
-    yield make_case(rng, tier, cipher='aes', sf='FirstSubBytes', keysize=24, model=['monobit', 7], amp=2, N=120, batch=0)
-    yield make_case(rng, tier, cipher='des', sf='FirstSboxes', model=['monobit', 3], amp=1, batch=50)
-    yield make_case(rng, tier, cipher='des', sf='LastSboxes', model=['monobit', 0], amp=2, N=120, batch=7)
-    yield make_case(rng, tier, cipher='aes', sf='LastSubBytes', keysize=32, model=['value'], amp=2, batch=50)
-    yield make_case(rng, tier, cipher='des', sf='FeistelRLastRounds', model=['value'], amp=1, batch=0)
+    # ... with non-default guesses (ranges with a non-zero start, descending, stepped; ndarray subsets and permutations) and with an
+    # interrupted run between two successful ones
+    yield make_case(rng, tier, cipher='aes', sf='FirstSubBytes', keysize=24, model=['monobit', 7], amp=2, N=120, batch=0, guesses='range')
+    yield make_case(rng, tier, cipher='des', sf='FirstSboxes', model=['monobit', 3], amp=1, batch=50, guesses='range_desc', interrupt=True)
+    yield make_case(rng, tier, cipher='des', sf='LastSboxes', model=['monobit', 0], amp=2, N=120, batch=7, guesses='subset')
+    yield make_case(rng, tier, cipher='aes', sf='LastSubBytes', keysize=32, model=['value'], amp=2, batch=50, guesses='perm', interrupt=True)
+    yield make_case(rng, tier, cipher='des', sf='FeistelRLastRounds', model=['value'], amp=1, batch=0, guesses='range_step', wform='int')
     # noise-free: r = 1, NICV = 1 at the true key
     yield make_case(rng, tier, cipher='aes', sf='FirstSubBytes', keysize=16, model=['hw'], amp=0, N=80, batch=0)
     yield make_case(rng, tier, cipher='des', sf='FirstSboxes', model=['value'], amp=0, N=80, batch=7)
@@ -688,7 +759,7 @@ class CampaignKind(Kind):
     def gen(self, rng, tier):
         for c in boundary(rng, tier):
             yield c
-        for _ in range(2 if tier == 'quick' else 130):
+        for _ in range(1 if tier == 'quick' else 120):
             yield make_case(rng, tier)
 
     # ------------------------------------------------------------------------------------------ driving the real code
@@ -702,6 +773,9 @@ class CampaignKind(Kind):
             kw['plaintext_tag' if pt_target else 'ciphertext_tag'] = tags['target']
         if tags.get('key'):
             kw['key_tag'] = tags['key']
+        gobj = asked_guesses(case)[1]
+        if gobj is not None:
+            kw['guesses'] = gobj
         return getattr(mod.selection_functions.encrypt, case['sf'])(words=words, **kw)
 
     def _model(self, case):
@@ -725,13 +799,19 @@ class CampaignKind(Kind):
         idx = frame_idx(case)
         S_eff, leaks_eff = framed(case)
         view = [[r[i] for i in idx] for r in A['traces']]             # the traces as the attack sees them: samples[:, frame]
-        obs = {'traces': view, 'state': A['leak'], 'S': S_eff, 'leaks': leaks_eff}
+        obs = {'S': S_eff, 'leaks': leaks_eff}
         eff = dict(case, S=S_eff)
         tdtype = case.get('tdtype', 'int16')
         samples = np.array(A['traces'], dtype=tdtype)
         frame = frame_obj(case)
         cut = case.get('split', 0)
         pieces = [(0, N)] if not 0 < cut < N else [(0, cut), (cut, N)]      # two run() calls of every attack object on the same key
+        intr = case.get('interrupt')
+        rows = list(range(N))
+        if intr:                                     # run(A); run(B) interrupted after `after` batches of 7; run(B) again
+            a0, kept = intr['cut'], intr['after'] * 7
+            pieces = [(0, a0), (a0, N)]
+            rows = list(range(a0)) + list(range(a0, a0 + kept)) + list(range(a0, N))
         parts = partitions_of(case)
         edges = [e / 2 for e in case['edges2']]
         results = []
@@ -742,8 +822,11 @@ class CampaignKind(Kind):
         calls = [np.asarray(sf.compute_expected_key(**ekkw)).reshape(-1)]          # before any run
         try:
             scared.set_batch_size(case['batch'] if case['batch'] else None)
-            conts = [scared.Container(estraces.read_ths_from_ram(samples=samples[a:b], **{k: v[a:b] for k, v in md.items()}), frame=frame)
-                     for a, b in pieces]
+            def cont_of(a, b, preprocesses=None):
+                ths = estraces.read_ths_from_ram(samples=samples[a:b], **{k: v[a:b] for k, v in md.items()})
+                return scared.Container(ths, frame=frame, **({'preprocesses': preprocesses} if preprocesses else {}))
+
+            conts = [cont_of(a, b) for a, b in pieces]
             obs['container_batch_size'] = int(conts[0].batch_size)
             with warnings.catch_warnings():
                 warnings.simplefilter('ignore')
@@ -765,13 +848,24 @@ class CampaignKind(Kind):
                         if k == 'mia':
                             kw['bin_edges'] = edges
                         a = getattr(scared, CLS[k])(**kw)
-                    for cont in conts:
-                        a.run(cont)
+                    if intr:
+                        a.run(conts[0])
+                        try:
+                            a.run(cont_of(*pieces[1], preprocesses=[failing_preprocess(intr['after'])]))
+                        except Interrupted:
+                            pass
+                        else:
+                            raise HarnessError('C17 harness: the interrupted run did not raise')
+                        a.run(conts[1])
+                    else:
+                        for cont in conts:
+                            a.run(cont)
                     results.append(a)
         finally:
             scared.set_batch_size(None)
         # expected key (asked again, twice) and the hypothesis data, from the same selection function / model objects
-        G = int(len(sf.guesses))
+        asked = asked_guesses(case)[0]
+        G = len(asked)                                 # the guesses the campaign asked for (not sf.guesses read back)
         calls.append(np.asarray(sf.compute_expected_key(**ekkw)).reshape(-1))
         calls.append(np.asarray(sf.compute_expected_key(**ekkw)).reshape(-1))
         obs['expected_calls'] = [[int(c[w]) for w in words] for c in calls]
@@ -783,6 +877,10 @@ class CampaignKind(Kind):
             raise ValueError(f'model(selection_function(**metadata)) has shape {hyp.shape}, not (traces, guesses, words) = {(N, G, len(words))}; '
                              f'.scores shapes: {[tuple(np.asarray(a.scores).shape) for a in results]}')
         obs['n_guesses'] = G
+        obs['asked_guesses'] = asked
+        view = [view[t] for t in rows]               # exactly the rows fed to the attack objects, in order
+        state = [[int(col[t]) for t in rows] for col in A['leak']]
+        obs['traces'], obs['state'] = view, state
         # per attack and word: shape, argmax, candidates for the evaluated subset
         per = []
         cand = [set() for _ in words]
@@ -811,18 +909,19 @@ class CampaignKind(Kind):
         obs['words'] = []
         for wi in range(len(words)):
             e = obs['expected'][wi]
-            s = set(cand[wi])
-            if 0 <= e < G:
-                s.add(e)
+            s = set(cand[wi])                      # POSITIONS on the guess axis
+            if e in asked:
+                s.add(asked.index(e))
             pool = [g for g in range(G) if g not in s]
             rng.shuffle(pool)
             while len(s) < min(MIN_SUBSET, G) and pool:
                 s.add(pool.pop())
-            gs = sorted(s)
-            cols = [[int(hyp[t, g, wi]) for t in range(N)] for g in gs]
-            obs['words'].append({'guesses': gs, 'hyp': cols, 'state_ok': (e in gs and cols[gs.index(e)] == [int(v) for v in A['leak'][wi]])})
-        lntab = [Fraction(math.log(k)) for k in range(1, N + 1)]
-        obs['ln'] = [math.log(k) for k in range(1, N + 1)]
+            ps = sorted(s)
+            gs = [asked[q] for q in ps]            # the guess VALUES the campaign asked for at these positions
+            cols = [[int(hyp[t, q, wi]) for t in rows] for q in ps]
+            obs['words'].append({'positions': ps, 'guesses': gs, 'hyp': cols, 'state_ok': (e in gs and cols[gs.index(e)] == state[wi])})
+        lntab = [Fraction(math.log(k)) for k in range(1, len(rows) + 1)]
+        obs['ln'] = [math.log(k) for k in range(1, len(rows) + 1)]
         obs['attacks'] = []
         for att, entry in zip(case['attacks'], per):
             sc2 = entry.pop('_scores', None)
@@ -831,8 +930,8 @@ class CampaignKind(Kind):
                 o = {'cls': att['cls'], 'disc': att['disc'], 'word': wi, 'shape': entry['shape'], 'shape_ok': entry['shape_ok']}
                 W = obs['words'][wi]
                 if entry['shape_ok']:
-                    o['scores'] = [float(sc2[g, j]) for g in W['guesses']]
-                    o['argmax'] = entry['argmax'][j]
+                    o['scores'] = [float(sc2[q, j]) for q in W['positions']]
+                    o['argmax'] = asked[entry['argmax'][j]]          # index on the guess axis -> the guess value asked for
                 if 'T' in entry:
                     o['T'], o['P'] = entry['T'], entry['P']
                 ms = mirror_scores(eff, att, view, W['hyp'], lntab, entry.get('T'), entry.get('P'))
@@ -878,8 +977,8 @@ class CampaignKind(Kind):
             return (f'compute_expected_key(key) for the same key returned {obs["expected_calls"]} (before run, after run, asked again) '
                     f'for words {case["words"]}')
         for wi, e in enumerate(obs['expected']):
-            if not 0 <= e < G:
-                return f'compute_expected_key gives {e} for word {case["words"][wi]}: not a position of the guess axis (0..{G - 1})'
+            if e not in obs['asked_guesses']:
+                return f'compute_expected_key gives {e} for word {case["words"][wi]}: not one of the guesses of the campaign'
         for a in obs['attacks']:
             if not a['shape_ok']:
                 return f'{CLS[a["cls"]]}.scores has shape {a["shape"]}, not (guesses, words) = ({G}, {len(case["words"])})'
@@ -890,7 +989,7 @@ class CampaignKind(Kind):
         for a in obs['attacks']:
             e = obs['expected'][a['word']]
             if a['sep'] and a['argmax'] != e:
-                return (f'{CLS[a["cls"]]} / {a["disc"]}, word {case["words"][a["word"]]}: scores.argmax(axis=0) = {a["argmax"]}, expected key {e} '
+                return (f'{CLS[a["cls"]]} / {a["disc"]}, word {case["words"][a["word"]]}: guesses[scores.argmax(axis=0)] = {a["argmax"]}, expected key {e} '
                         f'(the spec statistic ranks the expected key first with relative lead {a["lead_rel"]:.3f})')
         return None
 
@@ -905,6 +1004,7 @@ class CampaignKind(Kind):
              'batch': case['batch'] or 'default', 'N': case['N'], 'precision': case['precision'], 'words': len(case['words']),
              'constant_sample_in_frame': bool(case.get('const')) or case['amp'] == 0,
              'words_arg': f"{case.get('words_kind')}/{case.get('words_form')}", 'extra_metadata': '+'.join(sorted(case.get('extra', []))) or 'none',
+             'guesses': (case.get('guesses') or {}).get('kind', 'default'), 'interrupted_run': bool(case.get('interrupt')),
              'frame': ('full' if not case.get('frame') else f"{len(case['frame']['idx'])}/{case['frame']['form']}"),
              'polarity': 'negative' if case['gain'] < 0 else 'positive', 'offset': case.get('offset', 0), 'trace_dtype': case.get('tdtype', 'int16'),
              'custom_tags': '+'.join(k for k, v in sorted(case.get('mtags', {}).items()) if v) or 'none'}
@@ -937,7 +1037,7 @@ def make_history(rng, tier, n=None, keysizes=None, **kw):
     """2-3 campaigns attacked with ONE selection function object and ONE model object: different keys (AES: different key sizes
     too), plaintext sets, trace counts, batch sizes; in at least one campaign every attack object is run twice (two containers of
     the same key)."""
-    base = make_case(rng, tier, **kw)
+    base = make_case(rng, tier, guesses='default', interrupt=False, **kw)      # one object: one guesses setting for every campaign
     base['NB'] = 0
     atts = [a for a in base['attacks'] if a['cls'] != 'tdpa']       # TemplateDPA needs words=int: another selection function object
     keep = [a for a in atts if a['cls'] in ('cpa', 'dpa')]
@@ -962,6 +1062,29 @@ def make_history(rng, tier, n=None, keysizes=None, **kw):
     return {'campaigns': camps}
 
 
+def make_presets(rng, tier, n=None, **kw):
+    """2-3 campaigns of the same selection function class, each with its OWN selection function object (own guesses -- subsets /
+    permutations / ranges containing the true key values --, own words, own key), all objects constructed before any is used, then
+    used in another order."""
+    n = n or rng.choice([2, 3])
+    first = make_case(rng, tier, NB=0, interrupt=False, frame='full', **kw)
+    camps = [first]
+    for _ in range(n - 1):
+        camps.append(make_case(rng, tier, cipher=first['cipher'], sf=first['sf'], NB=0, interrupt=False, frame='full',
+                               model=first['model'], guesses=rng.choice(['subset', 'perm', 'range', 'range_desc'])))
+    kinds = ['subset', 'perm', 'range_desc']
+    for i, c in enumerate(camps):
+        if i == 0 or not c['guesses']:
+            c['guesses'] = {'kind': kinds[i % 3], 'seed': rng.getrandbits(32)}
+        keep = [a for a in c['attacks'] if a['cls'] in ('cpa', 'dpa')]
+        rest = [a for a in c['attacks'] if a['cls'] not in ('cpa', 'dpa', 'tdpa')]
+        c['attacks'] = keep + rest[:1]
+    order = list(range(n))
+    while order == list(range(n)):
+        rng.shuffle(order)
+    return {'mode': 'presets', 'campaigns': camps, 'order': order}
+
+
 class HistoryKind(CampaignKind):
     name = 'history'
     case_type = 'list camp_case'
@@ -981,13 +1104,24 @@ class HistoryKind(CampaignKind):
         yield make_history(rng, tier, cipher='des', sf='FirstSboxes', n=2)
         yield make_history(rng, tier, cipher='des', sf='LastSboxes', model=['monobit', rng.randrange(4)], n=2)
         yield make_history(rng, tier, cipher='aes', sf='LastAddRoundKey', n=2, keysizes=[24, 16])
-        for _ in range(1 if tier == 'quick' else 36):
+        yield make_presets(rng, tier, n=2, cipher='aes', sf='FirstSubBytes', keysize=16, model=['hw'])
+        yield make_presets(rng, tier, n=3, cipher='des', sf='LastSboxes')
+        for _ in range(0 if tier == 'quick' else 30):
             yield make_history(rng, tier)
+        for _ in range(0 if tier == 'quick' else 12):
+            yield make_presets(rng, tier)
 
     def run(self, case):
-        c0 = case['campaigns'][0]
-        shared = {'sf': self._sf(c0, words_obj(c0)), 'model': self._model(c0)}
-        return {'campaigns': [self.drive(c, shared) for c in case['campaigns']]}
+        cs = case['campaigns']
+        if case.get('mode') == 'presets':
+            # every selection function object (own guesses, own words) is constructed FIRST, then they are used in another order
+            objs = [{'sf': self._sf(c, words_obj(c)), 'model': self._model(c)} for c in cs]
+            out = [None] * len(cs)
+            for i in case['order']:
+                out[i] = self.drive(cs[i], objs[i])
+            return {'campaigns': out}
+        shared = {'sf': self._sf(cs[0], words_obj(cs[0])), 'model': self._model(cs[0])}
+        return {'campaigns': [self.drive(c, shared) for c in cs]}
 
     def coq(self, case, obs):
         if 'raised' in obs:
@@ -1000,8 +1134,9 @@ class HistoryKind(CampaignKind):
         for i, (c, o) in enumerate(zip(case['campaigns'], obs['campaigns'])):
             r = CampaignKind.oracle(self, c, o)
             if r:
-                return (f'campaign {i + 1} of {len(case["campaigns"])} (key {bytes(c["key"]).hex()}) attacked with the selection function and model '
-                        f'objects of the earlier campaigns: {r}')
+                how = ('with its own selection function object, all objects constructed first and used in the order ' + str(case.get('order'))
+                       if case.get('mode') == 'presets' else 'with the selection function and model objects of the earlier campaigns')
+                return f'campaign {i + 1} of {len(case["campaigns"])} (key {bytes(c["key"]).hex()}) attacked {how}: {r}'
         return None
 
     def nontrivial(self, case, obs):
@@ -1015,7 +1150,7 @@ class HistoryKind(CampaignKind):
         c0 = case['campaigns'][0]
         f = {'cipher_sf': f'{c0["cipher"]}.{c0["sf"]}', 'campaigns': len(case['campaigns']), 'model': c0['model'][0],
              'keysizes': '/'.join(str(len(c['key'])) for c in case['campaigns']),
-             'attack_objects_run_twice': sum(1 for c in case['campaigns'] if c.get('split'))}
+             'attack_objects_run_twice': sum(1 for c in case['campaigns'] if c.get('split')), 'mode': case.get('mode', 'shared_objects')}
         if 'raised' not in obs:
             for c, o in zip(case['campaigns'], obs['campaigns']):
                 CampaignKind.features(self, c, o)
@@ -1028,6 +1163,12 @@ class HistoryKind(CampaignKind):
 
     def shrink(self, case):
         cs = case['campaigns']
+        if case.get('mode') == 'presets':
+            if len(cs) > 2:
+                for i in range(len(cs)):
+                    keep = [j for j in range(len(cs)) if j != i]
+                    yield {'mode': 'presets', 'campaigns': [cs[j] for j in keep], 'order': [keep.index(j) for j in case['order'] if j != i]}
+            return
         if len(cs) > 2:
             for i in range(len(cs)):
                 for j in range(i + 1, len(cs)):
